@@ -190,7 +190,7 @@ CHECKS = {
               "least one, cc.Xor iff exactly one alternative is true, whatever the default (defaults enter the objective only, not "
               "the feasible set); ccAny_truth / ccXor_truth / stingy_truth — the same over constructor expressions (C04's build_truth "
               "for the arguments): cc.Any(...) / cc.Xor(...) / StingyConfigurator(...) hold iff at least one / exactly one / every "
-              "argument holds; defaultPrios_spec / ccAny_default_helper / ccAny_default_prio — default_prios has one entry per "
+              "argument holds; defaultPrios_sound_cover (every entry of default_prios is the id and tag of a sub-proposition and every id has an entry; of equal sub-propositions the first met decides, dedup_head) / defaultPrios_spec / ccAny_default_helper / ccXor_default_helper / ccAny_default_prio — default_prios has one entry per "
               "sub-proposition (its prio tag, else -1; flattened ids pairwise distinct), and a defaulted cc.Any holds its default "
               "item next to ONE helper tagged -2 that is true exactly when a non-default alternative is selected. Certificate tie: the "
               "Lean driver evaluates the certificate on every objective vector the real select() hands to the solver, with "
